@@ -12,11 +12,11 @@ if git -C $W apply $SEED/patch.diff; then echo "patch applies: yes"; else echo "
 (cd $W && go build ./... 2>&1 | tail -3 && echo "go build: ok")
 (cd $W && go test -count=1 ./... 2>&1 | grep -v "no test files" | grep -cv "^ok" | sed 's/^/go test: packages not ok = /')
 if [ -x $SEED/demo/run.sh ]; then
-  mkdir -p $W/SEED; cp -r $SEED/demo $W/SEED/
+  mkdir -p $W/SEED /tmp/seed/$N-work; cp -r $SEED/demo $W/SEED/   # some demos keep their scratch files under /tmp/seed/<seed>-work
   (cd $W && timeout 600 SEED/demo/run.sh > /tmp/seedv-$N-with.log 2>&1; echo "demo with change: exit $? ($(tail -1 /tmp/seedv-$N-with.log | cut -c1-100))")
   git -C $W checkout -- . >/dev/null 2>&1
   (cd $W && timeout 600 SEED/demo/run.sh > /tmp/seedv-$N-without.log 2>&1; echo "demo without change: exit $? ($(tail -1 /tmp/seedv-$N-without.log | cut -c1-100))")
 fi
 } > $SEED/verify.log 2>&1
-git -C /repo worktree remove --force $W; rm -rf /tmp/seedv-$N-*.log
+git -C /repo worktree remove --force $W; rm -rf /tmp/seedv-$N-*.log /tmp/seed/$N-work; rmdir /tmp/seed 2>/dev/null
 cat $SEED/verify.log
